@@ -54,6 +54,7 @@ def gen_big(rng):
                 break
             inst["reads"].pop(rng.choice(act))
         if len(inst["reads"]) >= 10:
+            inst["explicit_positions"] = True  # reads were removed after the column list was derived
             return inst
 
 
